@@ -20,6 +20,9 @@ MUTS={
  'M12-parse-no-lookbehind': ("regex=re.compile(r'(?:\\[(\\d+)\\:)|(?<!\\\\)\\]')", "regex=re.compile(r'(?:\\[(\\d+)\\:)|\\]')"),
  'M13-values-first-wins': ("            self.values[param] = (kind, data, pos)", "            self.values.setdefault(self.orig_params[0], (kind, data, pos))"),
  'M14-extract-no-code-in-attrs': ("                for message in self.extract(_ensure(value), gettext_functions,\n                                            search_text=False):\n                    yield message", "                for message in ():\n                    yield message"),
+ 'M15-no-code-in-msg': ("        for funcname, strings in extract_from_code(event[1],\n                                                   gettext_functions):\n            yield event[2][1], funcname, strings, []", "        for funcname, strings in ():\n            yield event[2][1], funcname, strings, []"),
+ 'M16-choose-last-child': ("            stream = chain(stream, [None])", "            stream = chain(stream, [])"),
+ 'M17-excluded-attr-code': ("                                                   search_text=search_text\n                                                               and not skip):", "                                                   search_text=search_text\n                                                               and not skip) if not skip else ():"),
  'T1-table-drop-style': ("        QName('style'), QName('http://www.w3.org/1999/xhtml}style')\n", "        QName('http://www.w3.org/1999/xhtml}style')\n"),
  'T2-table-drop-title': ("        'abbr', 'alt', 'label', 'prompt', 'standby', 'summary', 'title',\n", "        'abbr', 'alt', 'label', 'prompt', 'standby', 'summary',\n"),
  'T3-table-contexted': ("    None: 'pgettext',\n", "    None: 'pgettext_',\n"),
